@@ -33,6 +33,7 @@ fn main() {
             0
         }
         Some("diag") if args.len() >= 2 && args[1] == "cycles" => diag::cycles_table(),
+        Some("diag") if args.len() >= 3 && args[1] == "trace-c03" => diag::trace_c03(&args[2]),
         Some("selftest") if args.len() >= 5 && args[1] == "determinism" => driver::selftest_determinism(&args[2], &args[3], args[4].parse().unwrap_or(1000)),
         _ => usage(),
     };
